@@ -211,6 +211,7 @@ func (f *Frame) run(entry *State) {
 				for i, r := range t.Results {
 					rv = append(rv, f.val(r, fn.Signature.Results().At(i).Type()))
 				}
+				f.checkAtReturn(t, st, rv)
 				f.rets = append(f.rets, retSite{st: st, vals: rv})
 			case *ssa.Panic:
 				if f.g.panicAllowed(f, t, st) {
